@@ -84,6 +84,10 @@ def alternative_or_next(type_: Union[RDREdge.Alternative, RDREdge.Next],
         current_node = current_node._parent_
     elif isinstance(current_node._parent_, ExceptIf) and current_node is current_node._parent_.left:
         current_node = current_node._parent_
+    # The node may already head a chain of alternatives: the new branch extends the whole chain, not its first link
+    # (otherwise a third alternative would replace the second one).
+    while isinstance(current_node._parent_, (Alternative, Next)) and current_node is current_node._parent_.left:
+        current_node = current_node._parent_
     prev_parent = current_node._parent_
     current_node._parent_ = None
     if type_ == RDREdge.Alternative:
